@@ -1005,14 +1005,60 @@ def record_rewritten_unless_current(ctx: Ctx, rule: str) -> int:
             rep.unknown(rule, f.qname, "redirect record write of DBFS sync_paths not found", f.loc(loop))
             continue
         pth = cfg.find_path(tb, heads + [cfg.exit], avoid=put_nodes + eq_nodes, include_src=False)
+        opaque = opaque_decision_on_path(ctx, f, pth, {keyv}) if pth is not None else None
         if pth is None:
             rep.ok(rule, f.qname, desc, f.loc(loop))
+        elif opaque is not None:
+            rep.unknown(rule, f.qname, f"the iteration is decided by `{opaque}`, a method of a local object that is given the key: the comparison is not visible to this rule", f.loc(loop))
         else:
             from .common import witness_path
             rep.bad(rule, f.qname, desc, f.loc(loop), ["an iteration that keeps a record without comparing it with the key:"] + witness_path(cfg, f, pth)[-10:] + [
                     "a path committed a second time with another key (re-keep with changed code) keeps resolving to the old key; under the 'full' commit type the data copy stays stale"],
                     "record-kept", what="DBFS sync_paths keeps an existing redirect record whatever key it names")
     return n
+
+
+def opaque_decision_on_path(ctx: Ctx, f: Func, pth: List[Any], names: Set[str]) -> Optional[str]:
+    """A branch of the path whose test is the answer of a package function / a method of a local object that is handed one of `names` (the key of the iteration, the
+    commit flag): the comparison this rule looks for may sit in that callee, which the analysis did not expand - the rule must not decide.  The callee's text, or None."""
+    prog = ctx.prog
+    fl = flow_of(prog, f)
+    for b in pth:
+        if getattr(b, "kind", "") != "branch" or b.ast is None or not isinstance(b.ast, ast.expr):
+            continue
+        exprs = [b.ast]
+        for y in ast.walk(b.ast):
+            if isinstance(y, ast.Name) and isinstance(y.ctx, ast.Load):
+                try:
+                    exprs += [d.value for d in fl.defs_of_use(y) if d.value is not None and getattr(d, "kind", "assign") == "assign"]
+                except Exception:
+                    pass
+        # a field of a local object that a package callable built (`current = _Redirection.parse(meta, ..)`, `if current.copied:`)
+        for e in exprs:
+            for a_ in ast.walk(e):
+                if isinstance(a_, ast.Attribute) and isinstance(a_.value, ast.Name) and a_.value.id not in ("self", "cls") and prog.is_local(f, a_.value.id):
+                    try:
+                        ds_ = fl.defs_of_use(a_.value)
+                    except Exception:
+                        ds_ = []
+                    for d_ in ds_:
+                        v_ = d_.value
+                        if isinstance(v_, ast.Call) and any(g.module.name.startswith("dds") for g in prog.callees(f, v_, ctx._types)[0]):
+                            return unparse(a_, 40) + " of " + unparse(v_, 50)
+        for e in exprs:
+            for c in ast.walk(e):
+                if not (isinstance(c, ast.Call) and isinstance(c.func, ast.Attribute)):
+                    continue
+                args = list(c.args) + [k.value for k in c.keywords]
+                if not any(isinstance(a, ast.Name) and a.id in names for a in args):
+                    continue
+                recv = c.func.value
+                if isinstance(recv, ast.Name) and recv.id not in ("self", "os", "json", "cls") and prog.is_local(f, recv.id):
+                    return unparse(c, 60)
+                fs, _ = prog.callees(f, c, ctx._types)
+                if any(g.module.name.startswith("dds") for g in fs):
+                    return unparse(c, 60)
+    return None
 
 
 def uri_join_keeps_names(ctx: Ctx, rule: str) -> int:
